@@ -126,6 +126,9 @@ func (p *Parser) parseTagElement() (INodeTag, *Error) {
 
 	p.template.level++
 	defer func() { p.template.level-- }()
+	if p.template.level > maxNestingDepth {
+		return nil, p.Error(fmt.Sprintf("tags are nested too deeply (more than %d levels)", maxNestingDepth), tokenName)
+	}
 	node, err := tag.parser(p, tokenName, argParser)
 	if err != nil {
 		// A tag may return an Error that says little more than what went wrong (see the
